@@ -17,6 +17,7 @@ import copy
 import io
 import itertools
 import os
+import re
 
 from mc import core, engine_seq
 from ref.gridmodel import GridModel, ModelError
@@ -48,13 +49,16 @@ ASSUMPTIONS = [
     'isolated blocks are fixed, are not asserted',
     'distances and gravity cosine of a reversed connection are not compared here (property C09)',
     'rock type registration is judged by name (the statement says "one registered in the grid"); additionally by object identity except in states descended from a sum with a common rock type name in use',
+    'read-only queries (rocktype_frequencies, rocktype_frequency, check(fix=False), index lookups, counts) are operations of the alphabet: they must leave the grid unchanged and give the same answers twice; their values are not compared to the model',
+    'every attribute of the real objects outside the documented data model (private caches) is part of the canonical form, so no-op transitions that only change private state are expanded',
     'trusted: ref/gridmodel.py written from doc/source/t2grids.rst',
 ]
 BOUNDS = {
     'quick': {'empty': 'depth 3 full alphabet + 1 level reduced alphabet',
-              'seeds': '6 seeds: depth 1 full alphabet + 1 level reduced alphabet'},
-    'thorough': {'empty': 'depth 4 full alphabet',
-                 'seeds': '6 seeds: depth 2 full alphabet; chain3, ring4, datfile + 1 level reduced alphabet (depth 3)'},
+              'seeds': '6 seeds: depth 1 full alphabet + 1 level reduced alphabet + 1 level {clean_rocktypes, check(fix)}'},
+    'thorough': {'empty': 'depth 4 full alphabet + 1 level {clean_rocktypes, check(fix)}',
+                 'seeds': '6 seeds: depth 2 full alphabet; chain3, ring4, datfile + 1 level reduced alphabet; the geometry seeds '
+                          '+ 1 level {clean_rocktypes, check(fix)} (depth 3 everywhere)'},
 }
 TECHNIQUE = ('explicit-state breadth-first search over edit sequences on the real t2grid against a list/dict reference '
              'model; invariant and refinement checked on every transition')
@@ -128,10 +132,36 @@ def abstract(grid):
     return rocks, blocks, conns
 
 
+_KNOWN = {
+    'grid': set(['rocktypelist', 'blocklist', 'connectionlist', 'rocktype', 'block', 'connection']),
+    'rocktype': set(['name', 'nad', 'density', 'porosity', 'permeability', 'conductivity', 'specific_heat', 'compressibility',
+                     'expansivity', 'dry_conductivity', 'tortuosity', 'relative_permeability', 'capillarity']),
+    'block': set(['name', 'volume', 'rocktype', 'centre', 'atmosphere', 'ahtx', 'pmx', 'nseq', 'nadd', 'connection_name']),
+    'connection': set(['block', 'direction', 'distance', 'area', 'dircos', 'sigma', 'nseq', 'nad1', 'nad2', 'centre', 'midpoint',
+                       'normal']),
+}
+_ADDR = re.compile(r'0x[0-9a-fA-F]+')
+
+
+def hidden_state(grid):
+    """Every attribute of the real objects that is not part of the documented data model (private caches,
+    memo tables, flags), rendered without addresses.  It is part of the canonical form: two states that
+    look alike but carry different private state are different states, so a no-op that only fills a cache
+    is expanded like any other transition.  Empty on a tree without such attributes (no cost)."""
+    out = []
+    for k in sorted(set(vars(grid)) - _KNOWN['grid']):
+        out.append(('grid', k, _ADDR.sub('0x', repr(vars(grid)[k]))))
+    for kind, lst in (('rocktype', grid.rocktypelist), ('block', grid.blocklist), ('connection', grid.connectionlist)):
+        for i, o in enumerate(lst):
+            for k in sorted(set(vars(o)) - _KNOWN[kind]):
+                out.append((kind, i, k, _ADDR.sub('0x', repr(vars(o)[k]))))
+    return out
+
+
 def canon(state):
     g = state.grid
     held = [g.rocktype.get(b.rocktype.name) is b.rocktype for b in g.blocklist]    # future renames depend on it
-    return (abstract(g), sorted(g.block), sorted(g.connection), sorted(g.rocktype), held, state.alias)
+    return (abstract(g), sorted(g.block), sorted(g.connection), sorted(g.rocktype), held, state.alias, hidden_state(g))
 
 
 def invariant(grid, identity=True):
@@ -445,7 +475,10 @@ def minc_enabled(model, fractions, blocks):
 
 def ops_of(state, depth, reduced=False):
     """Enabled operations, simplest first.  'reduced' shrinks the big argument domains (renames to
-    transpositions / 3-cycles / shift-to-spare, permutations to transpositions) for the deepest level."""
+    transpositions / 3-cycles / shift-to-spare, permutations to transpositions) for a deeper level;
+    reduced='tiny' is the last level: only the operations that consume derived state."""
+    if reduced == 'tiny':
+        return [['clean_rocktypes'], ['check_fix']]
     if reduced:
         return ops_reduced(state)
     m, uni = state.model, state.uni
@@ -465,6 +498,7 @@ def ops_of(state, depth, reduced=False):
             if old != new and not (reduced and (old not in m.rocks or new in m.rocks)):
                 ops.append(['rename_rocktype', old, new])
     ops.append(['clean_rocktypes'])
+    ops.append(['read'])
     # blocks
     for n in uni[:4]:
         if n not in present or not m.cons_of(n):
@@ -541,6 +575,7 @@ def ops_reduced(state):
                 ops.append(['rename_rocktype', old, new])
                 break
     ops.append(['clean_rocktypes'])
+    ops.append(['read'])
     for n in uni[:4]:
         if n not in present and m.rocks:
             ops.append(['add_block', n, m.rocks[0]])
@@ -668,6 +703,16 @@ def t2data_wrapper(grid, model, uni):
     return dat
 
 
+def do_reads(g):
+    """The documented read-only queries of a grid (they may fill private caches; they must change nothing)."""
+    names = [rt.name for rt in g.rocktypelist] + ['nosuc']
+    return repr([g.num_blocks, g.num_connections, g.num_rocktypes, g.num_atmosphere_blocks, g.num_underground_blocks,
+                 g.rocktype_frequencies, [g.rocktype_frequency(n) for n in names], sorted(g.unconnected_blocks),
+                 sorted(g.isolated_rocktype_blocks), [int(i) for i in g.rocktype_indices], g.check(fix=False, silent=True),
+                 [g.block_index(b.name) for b in g.blocklist], [g.connection_index(k) for k in g.connection],
+                 g.block_centres_defined, repr(g)])
+
+
 def apply_impl(state, op):
     """Executes op on the real grid; may replace state.grid.  Returns (result, operands) where operands
     are other real grids that the call must have left consistent."""
@@ -702,6 +747,8 @@ def apply_impl(state, op):
         dat = t2data_wrapper(g, state.model, state.uni)
         dat.rename_blocks(dict((a, b) for a, b in op[1]), invert=op[2])
         return ('t2data', dat), []
+    elif k == 'read':
+        return [do_reads(g), do_reads(g)], []
     elif k == 'check_fix':
         return g.check(fix=True, silent=True), []
     elif k == 'minc':
@@ -769,6 +816,9 @@ def apply_model(state, op, result, notes):
                 notes['t2data-generator-blocks-differ-from-renamed-blocks'] += 1
             if sorted(dat.history_block) != want:
                 notes['t2data-history-blocks-differ-from-renamed-blocks'] += 1
+    elif k == 'read':
+        if result is not None and result[0] != result[1]:
+            extra.append(('read-not-repeatable', 'the same read-only queries gave %s and then %s' % (result[0], result[1])))
     elif k == 'check_fix':
         ok, iso = m.check_fix()
         after = dict((b.name, b.rocktype.name) for b in state.grid.blocklist)
@@ -852,14 +902,14 @@ def step2(state, op, notes=None):
 # work units
 # ------------------------------------------------------------------------------------------------
 def plan(tier):
-    """(seed, full-alphabet depth, extra reduced-alphabet levels, number of chunks of the first level).
+    """(seed, full-alphabet depth, reduced-alphabet levels, last 'consumer' levels, chunks of the first level).
     C08_DEV_PLAN=mini (development only, never used by the registered commands) shrinks the plan so that a
     mutant can be screened in seconds."""
     if os.environ.get('C08_DEV_PLAN') == 'mini':
-        return [('empty', 3, 0, 2)] + [(s, 1, 0, 2) for s in SEEDS]
+        return [('empty', 3, 0, 0, 2)] + [(s, 1, 0, 0, 2) for s in SEEDS]
     if tier == 'quick':
-        return [('empty', 3, 1, 4)] + [(s, 1, 1, 8) for s in SEEDS]
-    return [('empty', 4, 0, 8)] + [(s, 2, 1 if s in DEEP_SEEDS else 0, 24) for s in SEEDS]
+        return [('empty', 3, 1, 0, 4)] + [(s, 1, 1, 1, 8) for s in SEEDS]
+    return [('empty', 4, 0, 1, 8)] + [(s, 2, 1, 0, 24) if s in DEEP_SEEDS else (s, 2, 0, 1, 24) for s in SEEDS]
 
 
 DEEP_SEEDS = ('chain3', 'ring4', 'datfile')
@@ -867,14 +917,14 @@ DEEP_SEEDS = ('chain3', 'ring4', 'datfile')
 
 def units(tier):
     us = []
-    for seed, dfull, dred, nch in plan(tier):
+    for seed, dfull, dred, dtiny, nch in plan(tier):
         for i in range(nch):
-            us.append((seed, dfull, dred, i, nch))
+            us.append((seed, dfull, dred, dtiny, i, nch))
     return us
 
 
 def run_unit(unit, tier, rec):
-    seed, dfull, dred, ci, nch = unit
+    seed, dfull, dred, dtiny, ci, nch = unit
     st = build_seed(seed)
     n0 = len(list(ops_of(st, 0)))
     first = set(i for i in range(n0) if i % nch == ci)
@@ -895,8 +945,8 @@ def run_unit(unit, tier, rec):
             rec.sample({'seed': seed, 'ops': [], 'note': 'seed inconsistent, not explored'}, force=True)
         rec.count('seed_inconsistent:' + seed)
         return
-    engine_seq.bfs(rec, ID, seed, st, lambda s, d: ops_of(s, d, reduced=d >= dfull),
-                   lambda s, op: step(s, op, notes, rec), canon, dfull + dred, first_ops=first,
+    engine_seq.bfs(rec, ID, seed, st, lambda s, d: ops_of(s, d, reduced=False if d < dfull else (True if d < dfull + dred else 'tiny')),
+                   lambda s, op: step(s, op, notes, rec), canon, dfull + dred + dtiny, first_ops=first,
                    state_check=state_check if ci == 0 else None)
     for k, v in notes.items():
         rec.count('observed:' + k, v)
@@ -906,7 +956,7 @@ def run_unit(unit, tier, rec):
 def finalize(rec, tier):
     obs = dict((k, v) for k, v in rec.counters.items() if k.startswith('observed:'))
     return {'seeds': ['empty'] + SEEDS,
-            'per_seed_plan': [{'seed': s, 'depth_full_alphabet': a, 'extra_levels_reduced_alphabet': b} for s, a, b, n in plan(tier)],
+            'per_seed_plan': [{'seed': s, 'depth_full_alphabet': a, 'extra_levels_reduced_alphabet': b, 'extra_levels_consumers_only': t} for s, a, b, t, n in plan(tier)],
             'not_asserted_observations': obs}
 
 
